@@ -129,6 +129,8 @@ def witnesses():
     base = {"kind": "td", "bs": [3], "ents": [["a", T()], ["nt", {"kind": "nt", "data": "x"}], ["n", {"kind": "td", "bs": [3], "ents": [["c", T(dtype="f32")]]}]]}
     named = dict(base, names=["t"])
     lazy = {"kind": "lazy", "bs": [3, 2], "stack_dim": 0, "members": [{"kind": "td", "bs": [2], "ents": [["x", T(base=j)]]} for j in range(3)]}
+    lazy_named = {"kind": "lazy", "bs": [3, 2], "stack_dim": 0,
+                  "members": [{"kind": "td", "bs": [2], "names": ["m"], "ents": [["x", T(base=j)]]} for j in range(3)]}
     inner = {"kind": "td", "bs": [3], "ents": [["a", T()], ["lz", {"kind": "lazy", "stack_dim": 0,
                                                                     "members": [{"kind": "td", "bs": [], "ents": [["x", T(base=j)]]} for j in range(3)]}]]}
     W = [
@@ -140,7 +142,7 @@ def witnesses():
         ("memmap-subtree-unlock", {"spec": {"root": base, "lock": "memmap_"}, "ops": [{"op": "mm_sub_unlock_edit", "node": 0, "v": 4}]}),
         ("names-under-lock", {"spec": {"root": named, "lock": "lock_"}, "ops": [{"op": "names", "node": 0, "which": 1}]}),
         ("batch_size-under-lock", {"spec": {"root": base, "lock": "lock_"}, "ops": [{"op": "batch_size", "node": 0}]}),
-        ("S11-lazy-names", {"spec": {"root": lazy, "lock": "lock_"}, "ops": [{"op": "names", "node": 1, "which": 1}, {"op": "names", "node": 2, "which": 1},
+        ("S11-lazy-names", {"spec": {"root": lazy_named, "lock": "lock_"}, "ops": [{"op": "names", "node": 1, "which": 1}, {"op": "names", "node": 2, "which": 1},
                                                                            {"op": "names", "node": 3, "which": 1}]}),
         ("lazy-implicit-lock-cycle", {"spec": {"root": lazy, "lock": "members"}, "ops": [{"op": "member_relock_edit", "node": 0, "v": 3}]}),
         ("lazy-materialised", {"spec": {"root": inner, "lock": "lock_"}, "ops": [{"op": "set_", "node": 0, "leaf": 0, "v": 5}]}),
